@@ -1,8 +1,9 @@
 #!/bin/sh
 # tools/tryseed.sh <wt-suffix e.g. C16_1> <property id> : coordinator's confirmation of a seeded change
-#  1. demonstration fails with the patch, passes with it reverted (in the scratch worktree)
+#  1. demonstration fails with the patch, passes with it reverted (in the scratch worktree /tmp/wt_<suffix>)
 #  2. go build ./... with the patch
-#  3. VERIF_REPO=<worktree> ./check <pid>  (expected: VIOLATION)
+#  3. the check, run from a PRIVATE copy of /verif (so coq/gen, build/bin and evidence/ of /verif stay
+#     untouched) against the worktree  (expected: VIOLATION)
 export GOFLAGS=-mod=mod GOPROXY=off GOSUMDB=off GOTOOLCHAIN=local
 wt=/tmp/wt_$1; pid=$2
 cd $wt || exit 2
@@ -16,19 +17,8 @@ sh -c "$demo" >/tmp/seed_$1_without.log 2>&1; echo "DEMO-WITHOUT-PATCH exit=$? (
 git apply _seeded/patch.diff
 # remove demo copies (untracked files outside _seeded) so that the check sees the source change only
 git status --short | grep '^??' | grep -v _seeded | awk '{print $2}' | xargs -r rm -rf
-cd /verif
-VERIF_REPO=$wt ./check $pid 2>/tmp/seed_$1_check.err | grep -E "^(OK|VIOLATION|ERROR)" 
-# the seeded run regenerated coq/gen/*.v from the scratch worktree: regenerate them from /repo again
-python3 - "$pid" <<'PY'
-import json,subprocess,sys,os
-c=json.load(open('/verif/props.d/%s.json'%sys.argv[1]))
-env=dict(os.environ,VERIF_REPO='/repo')
-for name,out in c.get('translate',[]):
-    subprocess.run(['/verif/build/bin/translate',name,'/verif/coq/'+out],env=env)
-# enumerators run the harness binary, which the seeded run built against the worktree: rebuild first
-if c.get('enumerate'):
-    for g in c['enumerate']:
-        subprocess.run(['go','build','-tags','verif','-o','/verif/build/bin/'+g['cmd'],'./cmd/'+g['cmd']],cwd='/verif/harness',env=dict(env,CGO_ENABLED='0'))
-        subprocess.run(['/verif/build/bin/'+g['cmd']]+g['args'],cwd='/verif',env=env)
-PY
-git -C /verif status --short coq/gen | head
+pv=/tmp/tryseed_verif_$1
+mkdir -p $pv; rsync -a --delete --exclude .git --exclude build --exclude 'coq/cases' /verif/ $pv/
+cd $pv && VERIF_REPO=$wt ./check $pid 2>/tmp/seed_$1_check.err | grep -E "^(OK|VIOLATION|ERROR)"
+mkdir -p /verif/build/replays/seeded_$1 && cp $pv/build/replays/${pid}_* /verif/build/replays/seeded_$1/ 2>/dev/null
+rm -rf $pv
